@@ -22,13 +22,19 @@ for d in sorted(glob.glob(V + '/seeded/*/')):
         continue
     det = {}
     try:
-        for p in claimed:
+        def one(p):
             r = subprocess.run(['./check', p, '--tier', 'quick', '--no-evidence', '--repo', WT], cwd=V, capture_output=True, text=True)
-            rules = sorted(set(re.findall(r'rule (R[0-9.]+) \[(\w+)\] instance "([^"]+)"', r.stdout)))
-            if r.returncode == 1:
+            return p, r.returncode, sorted(set(re.findall(r'rule (R[0-9.]+) \[(\w+)\] instance "([^"]+)"', r.stdout)))
+        import concurrent.futures as cf
+        own = meta.get('property') if meta.get('property') in claimed else claimed[0]
+        first = one(own)      # (extracts the facts once; the others reuse them)
+        with cf.ThreadPoolExecutor(8) as ex:
+            rest = list(ex.map(one, [p for p in claimed if p != own]))
+        for p, rc, rules in sorted([first] + rest):
+            if rc == 1:
                 det[p] = ['%s %s (%s)' % (a, c, b) for a, b, c in rules][:8]
-            elif r.returncode != 0:
-                det[p] = ['exit %d (no verdict)' % r.returncode]
+            elif rc != 0:
+                det[p] = ['exit %d (no verdict)' % rc]
     finally:
         subprocess.run('git -C %s checkout -- . && git -C %s clean -fdq' % (WT, WT), shell=True)
     meta['detected_by'] = det
